@@ -73,6 +73,11 @@ def gen_case(rng, thorough, expiry=False):
         for o in ops:
             if o.get("id") == victim and o["op"] == "addFact":
                 o["fact"]["ttl"] = 2
+        if rng.random() < 0.6:
+            # an earlier life of the same ids: they were all stored once and removed together (by one cascade); what a removal
+            # remembers about the ids it dealt with must not outlive it -- the cascade started by the expiry below meets them again
+            ops[0:0] = [{"op": "addFact", "id": "root0", "fact": {"v": 0}}] + [{"op": "addFact", "id": n, "fact": {"v": 0, "k": n, "deleteWith": ["root0"]}} for n in nodes] + \
+                       [{"op": "remFact", "id": "root0"}, {"op": "snapshot"}]
         ops.append({"op": "snapshot"})
         ops.append({"op": "sleep", "ms": 3100})
         ops.append({"op": "getFact", "id": victim})
